@@ -64,7 +64,7 @@ JOBS += [
       fuc=["myth_sched_loop"], timeout=300),
   Job("c02.default_steal", SCHED, "h_default_steal", replace=["myth_random/random_contract"], replace_calls=["myth_queue_take:verif_take"],
       fuc=["myth_default_steal_func", "myth_env_get_first_busy"], timeout=300),
-  Job("c02.yield", SCHED, "h_yield", replace=["verif_suspend_resume/yield_resume_contract", "myth_queue_put/put_contract",
+  Job("c02.yield", SCHED, "h_yield", replace=["verif_suspend_resume/yield_resume_contract", "myth_queue_put/put_contract", "myth_queue_push/push_hot_end_contract",
                                               "myth_ensure_init/ensure_init_contract", "myth_random/random_contract2"],
       replace_calls=["myth_queue_pop:verif_pop"],
       restrict_fp=["myth_yield_ex_body.function_pointer_call.%d/verif_steal" % k for k in (1, 2, 3, 4, 5)],
